@@ -67,11 +67,12 @@ template <class S> long double norm2_ld(const std::vector<S> &v) { long double s
 // 2-norm bounds of A and A^{-1} (exact from a dense SVD when small; rigorous upper bounds otherwise)
 struct Cond { double normA = 0, normAinv = 0; const char *how = "";
     double normP = 0;                 // probe estimate of the preconditioner's 2-norm (0 = not measured)
+    bool smoother_outside_domain = false;   // e.g. Chebyshev (built for SPD spectra) on a non-symmetric matrix: its evaluation is numerically unstable
     double kappa() const { return normA * normAinv; }
     // conditioning of the call: the iterates live in range(P), their size is governed by max(||A^-1||, ||P||) ||f||
     double kappa_call() const { return normA * std::max(normAinv, normP); } };
 
-struct CallSpec { SolverCfg cfg; size_t maxiter = 100; int L = 2; double tol = 1e-8; };
+struct CallSpec { SolverCfg cfg; size_t maxiter = 100; int L = 2; double tol = 1e-8; double delta = 0; };
 
 // The truthful-residual oracle.  Returns false when a failure was emitted.
 //   right: reported == ||f - A x|| / ||f||;   left: reported == ||P (f - A x)|| / ||f||  (P = the solver's own preconditioner)
@@ -101,7 +102,9 @@ template <class S> using Rerun = std::function<bool(const std::vector<S> &f2, st
 template <class S, class ApplyP>
 bool check_truthful(Case &c, const CallSpec &cs, const Csr<S> &A, const std::vector<S> &f, const std::vector<S> &x0, const std::vector<S> &x,
                     size_t iters, double res, const Cond &K, ApplyP applyP, const std::string &tag, double *out_true = nullptr, Rerun<S> rerun = Rerun<S>()) {
-    const std::string name = cfg_name(cs.cfg) + tag; bool ok = true;
+    // BiCGStab(L > 1) gets its own key: its minimal-residual polynomial step is a separate mechanism (Gram matrix of L Krylov vectors)
+    const bool isbl = std::string(cs.cfg.type) == "bicgstabl";
+    const std::string name = std::string(cs.cfg.type) + (isbl && cs.L > 1 ? "(L>1)" : "") + (cs.cfg.left ? "-left" : "") + tag; bool ok = true;
     const double u = unit_roundoff<S>::get();
     // (b) iteration bound -- exact integer comparison
     size_t budget = cs.maxiter + (std::string(cs.cfg.type) == "bicgstabl" ? (size_t)std::max(0, cs.L - 1) : 0);
@@ -126,6 +129,7 @@ bool check_truthful(Case &c, const CallSpec &cs, const Csr<S> &A, const std::vec
     // evaluation is numerically unstable and the iterates blow up transiently, so neither kappa(A) nor any norm of P bounds the gap between the
     // recursively updated and the true residual (BiCGStab(L) evaluates P once more on exit; Greenbaum's bound scales with max_j ||x_j||).  Such calls
     // are counted and only held to the iteration bound, the non-finite rule and -- explicit right-side residuals -- the forward bound below.
+    if (K.smoother_outside_domain && (cs.cfg.left || !cs.cfg.explicit_res)) { obs_sum("checks_skipped_smoother_outside_domain"); return ok; }
     if (K.normP > 10 * K.normAinv && (cs.cfg.left || !cs.cfg.explicit_res)) { obs_sum("checks_skipped_amplifying_preconditioner"); return ok; }
     if (!std::isfinite(K.kappa_call()) && (cs.cfg.left || !cs.cfg.explicit_res)) { obs_sum("checks_skipped_nonfinite_preconditioner_probe"); return ok; }   // P itself overflows / is NaN: no bound exists
     long double nx0 = norm2_ld(x0);
@@ -156,7 +160,7 @@ bool check_truthful(Case &c, const CallSpec &cs, const Csr<S> &A, const std::vec
     obs_max(std::string("max_mismatch_over_bound_") + (cs.cfg.explicit_res ? "explicit" : "recursive") + (cs.cfg.left ? "_left" : "_right"), (double)(diff / bound));
     if (tv > 0) obs_max("max_rel_discrepancy_where_true_above_1e-6", tv > 1e-6L ? (double)(diff / tv) : 0.0);
     ok &= c.check(diff <= bound, name + ":residual-mismatch", "reported residual differs from the true relative residual of the returned x beyond the rounding bound",
-                  J().n("reported", res).n("true", (double)tv).n("bound", (double)bound).n("iters", iters).n("tol", cs.tol).n("maxiter", cs.maxiter).n("kappa_call", K.kappa_call()).n("normP_probe", K.normP));
+                  J().n("reported", res).n("true", (double)tv).n("bound", (double)bound).n("iters", iters).n("tol", cs.tol).n("maxiter", cs.maxiter).n("kappa_call", K.kappa_call()).n("normP_probe", K.normP).n("L", cs.L).n("delta", cs.delta));
     return ok;
 }
 
